@@ -356,5 +356,8 @@ PROPS["C02"]["rules"] = PROPS["C02"]["rules"] + [rules_dd.rule_ddblock_extent, r
 PROPS["C02"]["explanation"] += " (DDBLOCKSZ) every offset computed over the descriptors of a DD block counts the block header, so nothing is allocated inside a block. (ENDEXT) whoever advances the end-of-file mark writes at the new end or records FILE_END_DIRTY, so the file is extended over every reserved byte before descriptors pointing there are flushed."
 PROPS["C17"]["rules"] = PROPS["C17"]["rules"] + [rules_dd.rule_end_extension]
 
+PROPS["C09"]["rules"] = PROPS["C09"]["rules"] + [(lambda ctx: rules_dd.rule_F3c(ctx, {"ri_info"}))]
+PROPS["C09"]["explanation"] += " (F3c for images) every non-failing path that changes a field of the in-memory image record which GRIupdatemeta/GRIupdateRI store (dimension records of image and palette, name, palette reference) also sets `meta_modified`, the flag that makes GRend rewrite the image's description."
+
 NOT_APPLICABLE = {}
 
